@@ -15,6 +15,7 @@ import (
 	"path/filepath"
 	"runtime"
 	"runtime/debug"
+	"sort"
 	"strings"
 	"sync"
 	"sync/atomic"
@@ -24,6 +25,7 @@ import (
 	"verifharness/vlib/render"
 
 	"github.com/benoitkugler/webrender/html/document"
+	"github.com/benoitkugler/webrender/html/layout"
 	"github.com/benoitkugler/webrender/html/tree"
 	"github.com/benoitkugler/webrender/logger"
 	"github.com/benoitkugler/webrender/text"
@@ -46,12 +48,86 @@ type Outcome struct {
 	Events int      `json:"events"`
 	Err    string   `json:"err,omitempty"` // NewHTML / user CSS returned an error (a normal return)
 	// root discovery observables (tree.go 53-64)
-	Top      []TopNode `json:"top,omitempty"` // children of the parsed document node
-	RootIdx  int       `json:"root_idx"`      // index of HTML.Root among them (-1: nil root)
-	RootKind string    `json:"root_kind,omitempty"`
-	Exit     bool      `json:"exit,omitempty"` // worker must be restarted (abandoned goroutine)
-	Analysis *Analysis `json:"analysis,omitempty"`
-	Ms       int       `json:"ms"`
+	Top      []TopNode  `json:"top,omitempty"` // children of the parsed document node
+	RootIdx  int        `json:"root_idx"`      // index of HTML.Root among them (-1: nil root)
+	RootKind string     `json:"root_kind,omitempty"`
+	Exit     bool       `json:"exit,omitempty"` // worker must be restarted (abandoned goroutine)
+	Analysis *Analysis  `json:"analysis,omitempty"`
+	Ms       int        `json:"ms"`
+	OnStack  []string   `json:"on_stack,omitempty"` // hang: classes of the /repo functions on the stack of the rendering goroutine
+	Trace    *PageTrace `json:"trace,omitempty"`    // first pagination round, page by page (trace calls only)
+}
+
+// PageTrace is the first pagination round of a document recorded page by page
+// through /repo's hook layout.VerifPageTrace (one remakePage call per step).
+type PageTrace struct {
+	Steps     []layout.VerifPageStep `json:"steps"`
+	Footnotes int                    `json:"footnotes"`
+	RootLTR   bool                   `json:"root_ltr"`
+	Truncated bool                   `json:"truncated"`
+}
+
+// brkCode: 0 any, 1 left, 2 right; recto / verso resolved with the root direction
+// like pages.go 915-926
+func (t *PageTrace) brkCode(b string) int {
+	switch b {
+	case "left":
+		return 1
+	case "right":
+		return 2
+	case "recto":
+		if t.RootLTR {
+			return 2
+		}
+		return 1
+	case "verso":
+		if t.RootLTR {
+			return 1
+		}
+		return 2
+	}
+	return 0
+}
+
+// Coq renders the trace as a Check.C01.case (CPages); resume points are
+// numbered in order of first appearance (0 = nil).
+func (t *PageTrace) Coq() string {
+	ids := map[string]int{"": 0}
+	id := func(s string) int {
+		if k, ok := ids[s]; ok {
+			return k
+		}
+		ids[s] = len(ids)
+		return ids[s]
+	}
+	steps := make([]string, len(t.Steps))
+	for i, s := range t.Steps {
+		rin := id(s.ResumeIn)
+		rout := id(s.ResumeOut)
+		steps[i] = fmt.Sprintf("PStep %v %v %d %d %d %d %d %d %d", s.Blank, s.Right, t.brkCode(s.BreakIn), rin, rout,
+			t.brkCode(s.BreakOut), s.FnIn, s.FnOut, s.Broken)
+	}
+	return fmt.Sprintf("CPages [%s] %d %v", strings.Join(steps, "; "), t.Footnotes, t.Truncated)
+}
+
+// Verdict is the harness-side reading of a trace, used for trigger tags only (the
+// authoritative check is Check.C01.replay): "stuck-footnote" a blank page that
+// received reported footnotes reported as many again, "stuck-resume" a page with content
+// returned a resume point seen before, else "progress".
+func (t *PageTrace) Verdict() string {
+	seen := map[string]bool{}
+	for _, s := range t.Steps {
+		if s.Blank && (s.FnOut > s.FnIn || s.FnIn > 0 && s.FnOut >= s.FnIn) {
+			return "stuck-footnote"
+		}
+		if !s.Blank && s.ResumeOut != "" {
+			if seen[s.ResumeOut] {
+				return "stuck-resume"
+			}
+			seen[s.ResumeOut] = true
+		}
+	}
+	return "progress"
 }
 
 // countWriter counts "Repagination" lines of the progress logger
@@ -180,15 +256,16 @@ func topNodes(src string) []TopNode {
 	return out
 }
 
-// renderDoc is the function under watch (its name is searched in goroutine dumps)
-func renderDoc(d *Doc, o *Outcome) {
+// parseDoc parses the document and its user style sheets and records the root
+// discovery observables
+func parseDoc(d *Doc, o *Outcome) (*tree.HTML, []tree.CSS, bool) {
 	src := d.HTML()
 	o.Top = topNodes(src)
 	o.RootIdx = -1
 	doc, err := tree.NewHTML(utils.InputString(src), "http://verif.test/", fetcher, "")
 	if err != nil {
 		o.Err = "NewHTML: " + err.Error()
-		return
+		return nil, nil, false
 	}
 	if doc.Root != nil {
 		i := 0
@@ -221,7 +298,24 @@ func renderDoc(d *Doc, o *Outcome) {
 		}
 		sheets = append(sheets, c)
 	}
+	return doc, sheets, true
+}
+
+// renderDoc is the function under watch (its name is searched in goroutine dumps)
+func renderDoc(d *Doc, o *Outcome, tracePages int) {
+	doc, sheets, ok := parseDoc(d, o)
+	if !ok {
+		return
+	}
 	fc := fonts(d.Engine)
+	if tracePages > 0 {
+		// first pagination round only, one remakePage call at a time
+		t := &PageTrace{}
+		t.Steps, t.Footnotes, t.RootLTR, t.Truncated = layout.VerifPageTrace(doc, sheets, d.Hints, fc, tracePages)
+		o.Trace = t
+		o.Pages = len(t.Steps)
+		return
+	}
 	out := document.Render(doc, sheets, d.Hints, fc)
 	o.Pages = len(out.Pages)
 	rec := render.NewRecorder()
@@ -229,7 +323,7 @@ func renderDoc(d *Doc, o *Outcome) {
 	o.Events = len(rec.Events)
 }
 
-func runDoc(d *Doc, timeout time.Duration) Outcome {
+func runDoc(d *Doc, timeout time.Duration, tracePages int) Outcome {
 	cw := &countWriter{}
 	logger.ProgressLogger.SetOutput(cw)
 	done := make(chan Outcome, 1)
@@ -250,7 +344,7 @@ func runDoc(d *Doc, timeout time.Duration) Outcome {
 			done <- o
 		}()
 		o.Status = "ok"
-		renderDoc(d, &o)
+		renderDoc(d, &o, tracePages)
 	}()
 	var o Outcome
 	// the watchdog counts the CPU time of the process (the machine may be loaded by
@@ -282,6 +376,7 @@ func runDoc(d *Doc, timeout time.Duration) Outcome {
 			}
 		}
 		o.Site = hangSite(o.Frames)
+		o.OnStack = stackClasses(o.Frames)
 		if np := atomic.LoadInt32(&cw.pages); np >= 300 {
 			// pagination is progressing through a huge document (cost proportional
 			// to the output), not stuck
@@ -336,6 +431,36 @@ func hangSite(frames []string) string {
 	return "hang@?"
 }
 
+// stackClasses: which kinds of layout code were running when the watchdog fired
+// (whole stack, not only the innermost landmark): trigger tags `t:on-stack:<class>`
+// let a known-finding matcher require that the hang is in the construct it describes.
+func stackClasses(frames []string) []string {
+	classes := []struct{ class, substr string }{
+		{"line-breaking", "text.(*TextLayoutPango)"}, {"line-breaking", "text.(*FontConfigurationGotext)"}, {"line-breaking", "text.(*FontConfigurationPango)"},
+		{"line-breaking", "text.SplitFirstLine"}, {"line-breaking", "layout.getNextLinebox"}, {"line-breaking", "layout.splitTextBox"},
+		{"line-breaking", "layout.inlineMinContentWidth"}, {"line-breaking", "layout.inlineMaxContentWidth"}, {"line-breaking", "layout.inlineLineWidths"},
+		{"columns", "layout.columnsLayout"}, {"table", "layout.tableLayout"}, {"table", "layout.autoTableLayout"}, {"table", "layout.tableAndColumnsPreferredWidths"},
+		{"flex", "layout.flexLayout"}, {"grid", "layout.gridLayout"}, {"float", "layout.floatLayout"}, {"float", "layout.avoidCollisions"},
+		{"absolute", "layout.absoluteLayout"}, {"margin-boxes", "layout.makeMarginBoxes"},
+		{"drawing", "document.drawContext"}, {"drawing", "document.(*Document).Write"},
+		{"box-building", "boxes.BuildFormattingStructure"}, {"cascade", "tree.GetAllComputedStyles"}, {"parsing", "tree.NewHTML"},
+	}
+	set := map[string]bool{}
+	for _, f := range frames {
+		for _, c := range classes {
+			if strings.Contains(f, c.substr) {
+				set[c.class] = true
+			}
+		}
+	}
+	out := make([]string, 0, len(set))
+	for c := range set {
+		out = append(out, c)
+	}
+	sort.Strings(out)
+	return out
+}
+
 var hangLandmarks = []string{
 	"text.(*TextLayoutPango).GetFirstLine", "text.(*FontConfigurationGotext).wrapWordBreak",
 	"text.(*FontConfigurationPango).splitFirstLine", "text.(*FontConfigurationGotext).splitFirstLine",
@@ -380,6 +505,7 @@ type workerIn struct {
 	D       *Doc `json:"d"`
 	Ms      int  `json:"ms"`                // in-process hang timeout
 	Analyze bool `json:"analyze,omitempty"` // structural analysis instead of a render
+	Trace   int  `json:"trace,omitempty"`   // > 0: page trace of the first round (at most that many pages) instead of a render
 }
 
 func workerHandle(in string) (string, bool) {
@@ -398,7 +524,7 @@ func workerHandle(in string) (string, bool) {
 	if wi.Ms > 0 {
 		to = time.Duration(wi.Ms) * time.Millisecond
 	}
-	o := runDoc(wi.D, to)
+	o := runDoc(wi.D, to, wi.Trace)
 	b, _ := json.Marshal(o)
 	return string(b), o.Exit
 }
